@@ -647,6 +647,9 @@ def main():
             if 'F_SAME12' in sc.flags and m.group(1) != m.group(2):
                 continue
             f.schema = sc.name
+            if sc.name in ('io_print', 'io_fprint', 'io_asprint', 'ascii_dump', 'ascii_load'):
+                # input/output entry points exist for every handle type: abstract the type
+                f.pattern = name.replace(m.group(1), '@X@', 1)
             f.flags = [x for x in sc.flags if x != 'F_SAME12']
             f.skip_cmp = sc.skip_cmp
             if sc.twin:
